@@ -7,7 +7,8 @@ Model: `Karp/Model/Provision.lean` (StateNode view, `Scheduler.add`, Synced gate
        node across Pod / Node informer events; lemmas `Karp/Proofs/PodAcctLemmas.lean`, spec `Karp/Spec/Assigned.lean`,
        tied to the code by `c04.account` and, through whole passes, `c04.churn`).
 Spec:  `Karp/Spec/NeedCapacity.lean` — evaluated by the driver on the commit traces of real passes and two-pass
-       histories (ops `c04.history`, `c04.repass`, `c04.pass`); the model itself is tied to the code by `c04.view`,
+       histories (ops `c04.history`, `c04.repass`, `c04.pass`, `c04.room`: nodes lacking well-known labels next to
+       daemonsets selecting them, pods with multi-term volume topologies); the model itself is tied to the code by `c04.view`,
        `c04.synced`, the replay inside `c04.history`/`c04.pass`, and `c01.existing`.
 -/
 import Karp.Proofs.ProvisionLemmas
@@ -29,6 +30,12 @@ theorem fact_relax_after_add : tryScheduleCalls = ["add", "Relax"] := by decide
 theorem fact_existing_canAdd : existingCanAddCalls = ["ToleratesPod", "ExceedsLimits", "Conflicts", "Fits", "Compatible"] := by decide
 theorem fact_existing_fits : existingCanAddConds.take 5 =
     ["err != nil", "err != nil", "err != nil", "!resources.Fits(podData.Requests, n.remainingResources)", "err != nil"] := by decide
+/-- the loop over the pod's volume alternatives in `ExistingNode.CanAdd` SKIPS a failing alternative (it remembers the error
+    and continues with the next one); the model's `existingCanAddV` is an `any` over the alternatives -/
+theorem fact_volume_alternative_skipped : volumeAlternativeFailure = ["if err != nil", "lastErr = err", "continue"] := by decide
+/-- `isDaemonPodCompatibleWithNode` checks the daemon pod's requirements against the node's labels with NO option (no
+    undefined key is allowed, well-known or not): `dsCountedWith` -/
+theorem fact_daemon_node_compatible : daemonNodeCompatibleArgs = ["scheduling.NewStrictPodRequirements(p)"] := by decide
 /-- the existing nodes of a pass are built from `StateNode.Taints()` and the daemonsets compatible with the node -/
 theorem fact_existing_nodes : existingNodeCalls = ["Taints", "getCompatibleDaemonPods", "NewExistingNode"] := by decide
 
@@ -192,6 +199,130 @@ theorem C04_refusal_stable_many : ∀ (qs : List PodD) (n n' : ExNode) (p : PodD
     · simp only [hc, if_true] at h
       exact ih _ n' p (fun x hx => hnn x (by simp [hx])) h (C04_refusal_stable n q p (hnn q (by simp)) hr)
     · simp only [hc, Bool.false_eq_true, if_false] at h; cases h
+
+/-! ## 1b. Room that hangs on volumes and on labels the node does not carry
+
+`ExistingNode.CanAdd` with the pod's volume topology alternatives (`existingCanAddV`): the alternatives are OR-ed, so an
+existing node is refused for its volumes only when EVERY alternative fails on it - whatever their order; the guard of
+OpenNew carries over.  A daemonset whose node selector names a label the node lacks is not counted for the node
+(`isDaemonPodCompatibleWithNode` allows no undefined key), so nothing is reserved for it there. -/
+
+
+/-- without volumes `addDecisionV` is `Scheduler.add` as before -/
+theorem C04_add_without_volumes {κ : Type} (ops : ClaimOps κ) (s : Pass κ) (p : PodD) :
+    addDecisionV ops s p [] = addDecision ops s p := by
+  have hf : (fun e => existingCanAddV e p []) = (fun e => existingCanAdd e p) := by
+    funext e; simp [existingCanAddV]
+  unfold addDecisionV addDecision
+  rw [hf]
+
+/-- **C04_volume_some_alternative** — a node admits a pod with volumes iff it admits the pod as such and SOME volume
+    alternative is compatible with its labels (narrowed by the pod's requirements) -/
+theorem C04_volume_some_alternative (n : ExNode) (p : PodD) (alts : List (List KExpr)) :
+    existingCanAddV n p alts = true ↔
+      existingCanAdd n p = true ∧ (alts = [] ∨ ∃ a ∈ alts, volAltOK n p a = true) := by
+  simp [existingCanAddV, List.isEmpty_iff, List.any_eq_true]
+
+/-- a refusal is never due to ONE failing alternative -/
+theorem C04_volume_refused_only_if_every_alternative_fails (n : ExNode) (p : PodD) (alts : List (List KExpr))
+    (h : existingCanAddV n p alts = false) :
+    existingCanAdd n p = false ∨ (alts ≠ [] ∧ ∀ a ∈ alts, volAltOK n p a = false) := by
+  cases hc : existingCanAdd n p with
+  | false => exact Or.inl rfl
+  | true =>
+    right
+    simp only [existingCanAddV, hc, Bool.true_and, Bool.or_eq_false_iff, List.isEmpty_eq_false_iff, List.any_eq_false] at h
+    exact ⟨h.1, fun a ha => by simpa using h.2 a ha⟩
+
+/-- **C04_volume_later_alternative_counts** — an alternative that holds on the node counts wherever it stands in the list -/
+theorem C04_volume_later_alternative_counts (n : ExNode) (p : PodD) (pre post : List (List KExpr)) (a : List KExpr)
+    (h : existingCanAdd n p = true) (ha : volAltOK n p a = true) :
+    existingCanAddV n p (pre ++ a :: post) = true := by
+  rw [C04_volume_some_alternative]
+  exact ⟨h, Or.inr ⟨a, by simp, ha⟩⟩
+
+/-- the verdict does not depend on the order of the alternatives -/
+theorem C04_volume_order_irrelevant (n : ExNode) (p : PodD) (alts alts' : List (List KExpr)) (h : alts.Perm alts') :
+    existingCanAddV n p alts = existingCanAddV n p alts' := by
+  have hm : ∀ a, a ∈ alts ↔ a ∈ alts' := fun a => h.mem_iff
+  have he : alts = [] ↔ alts' = [] := by
+    constructor
+    · intro e; subst e; exact List.Perm.eq_nil (h.symm) |> fun x => x
+    · intro e; subst e; exact List.Perm.eq_nil h
+  rw [Bool.eq_iff_iff, C04_volume_some_alternative, C04_volume_some_alternative]
+  constructor
+  · rintro ⟨h1, h2⟩
+    refine ⟨h1, ?_⟩
+    rcases h2 with h2 | ⟨a, ha, hv⟩
+    · exact Or.inl (he.mp h2)
+    · exact Or.inr ⟨a, (hm a).mp ha, hv⟩
+  · rintro ⟨h1, h2⟩
+    refine ⟨h1, ?_⟩
+    rcases h2 with h2 | ⟨a, ha, hv⟩
+    · exact Or.inl (he.mpr h2)
+    · exact Or.inr ⟨a, (hm a).mpr ha, hv⟩
+
+/-- **C04_open_only_if_needed_volumes** — the guard of OpenNew for a pod with volumes: every existing node refuses the pod
+    as such or fails EVERY volume alternative, and every NodeClaim opened earlier refuses it -/
+theorem C04_open_only_if_needed_volumes {κ : Type} (ops : ClaimOps κ) (s : Pass κ) (p : PodD) (alts : List (List KExpr))
+    (h : addDecisionV ops s p alts = .openNew) :
+    (∀ e ∈ s.existing, existingCanAdd e p = false ∨ (alts ≠ [] ∧ ∀ a ∈ alts, volAltOK e p a = false)) ∧
+    (∀ c ∈ s.claims, ops.canAdd c p = false) := by
+  unfold addDecisionV at h
+  cases h1 : firstIdx (fun e => existingCanAddV e p alts) s.existing with
+  | some i => rw [h1] at h; simp at h
+  | none =>
+    rw [h1] at h
+    simp only at h
+    cases h2 : firstIdx (fun c => ops.canAdd c p) s.claims with
+    | some j => rw [h2] at h; simp at h
+    | none =>
+      exact ⟨fun e he => C04_volume_refused_only_if_every_alternative_fails e p alts (firstIdx_none _ _ h1 e he), firstIdx_none _ _ h2⟩
+
+/-- what a pass adds to a node does not change which volume alternatives hold on it (labels are fixed) -/
+theorem C04_volume_alternative_stable (n : ExNode) (q p : PodD) (a : List KExpr) : volAltOK (existingAdd n q) p a = volAltOK n p a := rfl
+
+
+/-- **C04_daemon_needs_label_partial** — a daemonset whose node selector is a single `key = value` is NOT counted for a node
+    whose labels lack the (normalised) key, whatever the taints and the PreferNoSchedule variant: nothing is reserved for it.
+    FULL statement (every selector entry whose key the node lacks): false in the model as in the code for selectors that
+    name the same normalised key twice with different values - their intersection is empty, which Karpenter reads as
+    `DoesNotExist` and an absent label satisfies (the empty-set-read-as-absent behaviour recorded under C01/C12). -/
+theorem C04_daemon_needs_label_partial (pns : Bool) (d : DaemonSet) (k v : String) (ls : Labels) (taints : List Taint)
+    (hsel : d.nodeSelector = [(k, v)]) (habs : ls.lookup (normalizeKey k) = none) :
+    dsCountedWith pns d ls taints = false := by
+  have hk : (labelReqs ls).hasKey (normalizeKey k) = false := by
+    unfold Reqs.hasKey labelReqs
+    induction ls with
+    | nil => rfl
+    | cons kv rest ih =>
+      obtain ⟨k', v'⟩ := kv
+      simp only [List.lookup] at habs
+      simp only [List.map, List.lookup]
+      cases hkk : (normalizeKey k == k') with
+      | true => rw [hkk] at habs; cases habs
+      | false => rw [hkk] at habs; simp only; exact ih habs
+  unfold dsCountedWith
+  rw [hsel]
+  simp [selectorExprs, podReqs, Reqs.add, Reqs.add1, newReq, Req.new, normalizeValue, Reqs.compatible, Reqs.set, hk,
+    Req.absentOk, Req.operator, Req.len, card, List.eraseDups, pure, Except.pure]
+  intro _ h
+  have hl : (List.eraseDupsBy (fun x1 x2 => x1 == x2) [v]).length = 1 := by
+    simp [List.eraseDupsBy, List.eraseDupsBy.loop]
+  rw [hl] at h
+  simp at h
+
+/-! non-vacuity -/
+def dsSpot : DaemonSet := { name := "spot-handler", cpu := 1500, mem := 128, nodeSelector := [("karpenter.sh/capacity-type", "spot")], tolerations := [], hostPorts := [] }
+example : dsCountedWith true dsSpot [("kubernetes.io/hostname", "n1"), ("topology.kubernetes.io/zone", "z1")] [] = false := by decide
+example : dsCountedWith true dsSpot [("kubernetes.io/hostname", "n1"), ("karpenter.sh/capacity-type", "spot")] [] = true := by decide
+def exZ3 : ExNode := { labels := [("kubernetes.io/hostname", "n1"), ("topology.kubernetes.io/zone", "z3")], taints := [], remCPU := 1000, remMem := 4096, remPods := 10, ports := [] }
+def podV : PodD := { cpu := 500, mem := 64, tolerations := [], ports := [], exprs := [] }
+def zoneIn (z : String) : List KExpr := [{ key := "topology.kubernetes.io/zone", op := .in_, vals := [z] }]
+example : existingCanAddV exZ3 podV [zoneIn "z1", zoneIn "z3"] = true ∧ existingCanAddV exZ3 podV [zoneIn "z1", zoneIn "z2"] = false ∧
+    volAltOK exZ3 podV (zoneIn "z1") = false := by decide
+example : (volumeAlts [[zoneIn "z1", zoneIn "z3"], [], [zoneIn "z3"]]).map (·.map (·.vals)) = [[["z3"], ["z3"]]] ∧
+    (volumeAlts [[], []]).length = 0 := by decide
 
 /-! ## 2. The in-flight view: what the scheduler sees of a launched NodeClaim at each lifecycle stage -/
 
